@@ -66,6 +66,11 @@ _OOO_NAMESPACES = {
 }
 _NUMBER_COLUMNS_REPEATED = "{" + _OOO_NAMESPACES["table"] + "}number-columns-repeated"
 _NUMBER_ROWS_REPEATED = "{" + _OOO_NAMESPACES["table"] + "}number-rows-repeated"
+_TABLE_ROW = "{" + _OOO_NAMESPACES["table"] + "}table-row"
+#: Elements that wrap rows, for example rows to repeat on each printed page or grouped rows.
+_TABLE_ROW_CONTAINERS = tuple(
+    "{" + _OOO_NAMESPACES["table"] + "}" + name for name in ("table-header-rows", "table-row-group", "table-rows")
+)
 _TEXT_C = "{" + _OOO_NAMESPACES["text"] + "}c"
 _TEXT_LINE_BREAK = "{" + _OOO_NAMESPACES["text"] + "}line-break"
 _TEXT_S = "{" + _OOO_NAMESPACES["text"] + "}s"
@@ -253,6 +258,20 @@ def _ods_text(element, location):
     return result
 
 
+def _ods_table_rows(parent_element):
+    """
+    The ``table:table-row`` elements of ``parent_element`` in document order
+    including the ones kept in wrapper elements like
+    ``table:table-header-rows`` and (possibly nested) ``table:table-row-group``.
+    """
+    for element in parent_element:
+        if element.tag == _TABLE_ROW:
+            yield element
+        elif element.tag in _TABLE_ROW_CONTAINERS:
+            for table_row in _ods_table_rows(element):
+                yield table_row
+
+
 def ods_rows(source_ods_path, sheet=1):
     """
     Rows stored in ODS document ``source_ods_path`` in ``sheet``.
@@ -301,7 +320,7 @@ def ods_rows(source_ods_path, sheet=1):
     location = errors.Location(source_ods_path, has_cell=True, has_sheet=True)
     for _ in range(sheet - 1):
         location.advance_sheet()
-    for table_row in _findall(table_element, "table:table-row", namespaces=_OOO_NAMESPACES):
+    for table_row in _ods_table_rows(table_element):
         rows_repeated_text = table_row.attrib.get(_NUMBER_ROWS_REPEATED, "1")
         try:
             rows_repeated_count = int(rows_repeated_text)
